@@ -47,7 +47,7 @@ func ctxMutators(w *core.World) map[*types.Func]bool {
 }
 
 func checkC07(r *core.Run) {
-	r.Explain = "Decided statically: (C07.table) begin()'s switch is total over the six Propagation constants and per mode the effects on the in-transaction / no-transaction branch (unbind, join, begin a new transaction, error) equal the documented table; (C07.isolation) a scope entered with a context that already carries a transaction rebinds ctx to a fresh seata context carrying the same xid before any mutator of the shared ContextVariable runs, so the enclosing scope's xid/role/name survive; (C07.join) joining sets role Participant and keeps the xid; (C07.rpc) per integration the value written to transport metadata is tm.GetXID(ctx) unmodified, the value given to tm.SetXID on the callee side derives only from metadata reads under the accepted key constants, writer and reader keys intersect, and the callee context is fresh (role not Launcher). NOT decided: request sequences of whole scope trees (the dynamic composition of the above)."
+	r.Explain = "Decided statically: (C07.table) begin()'s switch is total over the six Propagation constants and per mode the effects on the in-transaction / no-transaction branch (unbind, join, begin a new transaction, error) equal the documented table; (C07.isolation) a scope entered with a context that already carries a transaction rebinds ctx to a fresh seata context carrying the same xid before any mutator of the shared ContextVariable runs, so the enclosing scope's xid/role/name survive; (C07.join) joining sets role Participant and keeps the xid; (C07.rpc) per integration the value written to transport metadata is tm.GetXID(ctx) unmodified, the value given to tm.SetXID on the callee side derives only from metadata reads under the accepted key constants, writer and reader keys intersect, and the callee context is fresh (role not Launcher). (C07.table, also) after UnbindXid nothing in begin binds an xid again (SetXID / SetXIDCopy); NOT decided: request sequences of whole scope trees (the dynamic composition of the above)."
 	r.Trusted = []string{"go/types, go/cfg", "grpc metadata / gin header / dubbo attachment key handling (case folding)"}
 	w := r.W
 	with := r.Anchor("C07.anchor", w.Func("pkg/tm", "", "WithGlobalTx"), "tm.WithGlobalTx")
